@@ -51,6 +51,9 @@ uint8_t* X_memcpy(uint8_t* d, uint8_t* s, uint64_t n){ return memcpy(d, s, n); }
 uint8_t* X_memset(uint8_t* d, uint32_t v, uint64_t n){ return memset(d, (int)v, n); }
 uint8_t* X_memmove(uint8_t* d, uint8_t* s, uint64_t n){ return memmove(d, s, n); }
 
+#include <errno.h>
+uint32_t* X___errno_location(void){ return (uint32_t*)&errno; }
+
 int main(int argc, char** argv){
   if (argc < 3) return 2;
   void (*h)(void) = (void (*)(void))dlsym(RTLD_DEFAULT, argv[1]);
